@@ -7,9 +7,13 @@ PROP = 'C18'
 CHILD = os.path.join(os.path.dirname(os.path.dirname(__file__)), 'subproc_compile.py')
 
 
-def child(seed, actions):
+def child(seed, actions, locale=None):
     env = dict(os.environ)
     env['PYTHONHASHSEED'] = str(seed)
+    if locale:
+        # another locale / text encoding of the process (the job travels as ASCII-only JSON)
+        env.update({'LC_ALL': locale, 'LANG': locale, 'PYTHONUTF8': '0'})
+        env.pop('PYTHONIOENCODING', None)
     env['PYTHONPATH'] = os.path.join(common.REPO, 'src')
     p = subprocess.run([common.PY, CHILD], input=json.dumps({'actions': actions}), capture_output=True, text=True, env=env, timeout=120)
     if p.returncode != 0:
@@ -63,6 +67,7 @@ def case(rep, drv, rnd, i, tier):
         variants = []
         for seed in rnd.sample(range(1, 1000), 3):
             variants.append(('PYTHONHASHSEED=%d' % seed, child(seed, [['string', targets[0], opt]])[0]))
+        variants.append(('LC_ALL=C, not in UTF-8 mode', child(0, [['string', targets[0], opt]], locale='C')[0]))
         # after other compilations in the same process (strings, files, other options)
         hist = []
         for _ in range(rnd.randint(1, 5)):
@@ -119,7 +124,7 @@ def run(tier):
         par.run_cases(chk.rep, 'harness.checks.c18', 'case', n)
         chk.finish(rule='each program (clauses with several fresh variables, names differing only in case, anonymous variables, '
                         'if-then-else labels) is compiled in a fresh process with PYTHONHASHSEED=0, in 3 fresh processes with other '
-                        'seeds, and at the end of a process that first performed 1-5 other compilations (strings, files, failing inputs, '
+                        'seeds, in a process with the C locale outside UTF-8 mode, and at the end of a process that first performed 1-5 other compilations (strings, files, failing inputs, '
                         'other option objects incl. subclasses of CompilerContext with debug flags), and as a file that was compiled before with other '
                         'options and held another program under the same name, size and time stamp; all outputs must be byte-identical, '
                         'and ast-identical to the model of the compiler (declaration order not normalised); distinct = distinct texts')
